@@ -2,7 +2,7 @@
    model of Smt/Intervals.v.  The specification side uses only `matches` (IvRe.v), `intval`,
    `In_ivs` defined here — not the model's py_int / nifr. *)
 From Coq Require Import List NArith ZArith Bool Lia Sorting.Sorted.
-From ISLA Require Import Str Outcome IvRe Intervals IvShape.
+From ISLA Require Import Str Outcome IvRe Intervals IvShape IvCompressFacts.
 Import ListNotations.
 Open Scope Z_scope.
 
@@ -472,4 +472,43 @@ Proof.
   split; [reflexivity|split; [reflexivity|split; [|split; [reflexivity|split; [|reflexivity]]]]].
   - simpl. change [53%N] with ([53%N] ++ []). constructor; [right; reflexivity|constructor].
   - intros [i [[Hi|[]] Hin]]. subst i. unfold In_iv, maxsize in Hin. simpl in Hin. lia.
+Qed.
+
+(* OUTSIDE the documented shape: an element of value zero that can carry a sign is stripped as zero padding.
+   Concat(Star(Concat(Option(Re("-")), Re("0"))), Range("1","2")) is given [(1,2)] but matches "-01" (= -1).
+   Holds for the repaired code (q = false) as well as for q = true. *)
+Theorem signed_zero_refuted :
+  exists r ivs s n, K_signed_zero r = true /\ documented_shapeb r = false /\
+                    nifr_top false r = Val (Some ivs) /\ nifr_top true r = Val (Some ivs) /\
+                    matches r s /\ intval s = Some n /\ ~ In_ivs n ivs.
+Proof.
+  exists (RConcat (RStar (RConcat (ROpt re_minus_sign) zero_lit)) (RRange [49%N] [50%N])),
+         [(1, 2)], [45%N; 48%N; 49%N], (-1).
+  split; [reflexivity|split; [reflexivity|split; [reflexivity|split; [reflexivity|split; [|split; [reflexivity|]]]]]].
+  - simpl. exists [45%N; 48%N], [49%N]. split; [reflexivity|split].
+    + change [45%N; 48%N] with ([45%N; 48%N] ++ []). constructor; [|constructor].
+      exists [45%N], [48%N]. split; [reflexivity|split; [right; reflexivity|reflexivity]].
+    + exists 49%N, 50%N, 49%N. repeat split; lia.
+  - intros [i [[Hi|[]] Hin]]. subst i. unfold In_iv, maxsize in Hin. simpl in Hin. lia.
+Qed.
+
+(* the class never meets the documented shape *)
+Lemma has_sign_recognized_star c :
+  (re_eqb c zero_lit || re_eqb c (RRange [48%N] [48%N]) || re_eqb c r09) = true -> has_sign c = false /\ signed_zero c = false.
+Proof.
+  intro H. apply orb_true_iff in H as [H|H]; [apply orb_true_iff in H as [H|H]|];
+    apply re_eqb_eq in H; subst c; split; reflexivity.
+Qed.
+
+Theorem signed_zero_outside_shape r : recognizedb r = true -> K_signed_zero r = false.
+Proof.
+  unfold K_signed_zero. induction r as [w|a b|c IH|c IH|c IH|a IHa b IHb|a IHa b IHb|a IHa b IHb|c IH| |]; intro H;
+    simpl in *; try discriminate H; try reflexivity.
+  - destruct w as [|x [|y w]]; [reflexivity|reflexivity|discriminate H].
+  - destruct (has_sign_recognized_star c H) as [H1 H2]. rewrite H1, H2. reflexivity.
+  - destruct (has_sign_recognized_star c H) as [H1 H2]. rewrite H1, H2. reflexivity.
+  - unfold sign_lit in H. apply orb_true_iff in H. destruct c as [w|a b| | | | | | | | |]; try (destruct H; discriminate).
+    destruct w as [|x [|y w]]; try reflexivity. destruct H as [H|H]; simpl in H; rewrite andb_false_r in H; discriminate.
+  - apply andb_true_iff in H as [Ha Hb]. rewrite (IHa Ha), (IHb Hb). reflexivity.
+  - apply andb_true_iff in H as [Ha Hb]. rewrite (IHa Ha), (IHb Hb). reflexivity.
 Qed.
